@@ -7,9 +7,26 @@ import sys
 import warnings
 
 
+# A Config object that the *caller* keeps and hands to several objects (set by an event of the check; absent in a fresh
+# interpreter, where the probe builds its own).  The library must treat it as read-only: "settings" are what the caller wrote.
+SHARED = {}
+
+
 def probe(pytrs):
     P = pytrs
     out = []
+    cfg = SHARED.get('cfg')
+    if cfg is None:
+        cfg = P.Config('n,w')
+    out.append(cfg.decompile_to_text())
+    d = P.PLSSDesc('T154-R97 Sec 14: N/2, NE, Lot 1', config=cfg)
+    out.append([[t.trs, t.desc, t.lots, t.qqs, t.pp_desc] for t in d.tracts])
+    d.parse_tracts()
+    out.append([[t.trs, t.lots, t.qqs] for t in d.tracts])
+    t = P.Tract('N/2, NE', trs='154n97w14', config=cfg)
+    t.parse()
+    out.append([t.lots, t.qqs, t.pp_desc])
+    out.append(cfg.decompile_to_text())
     for txt, cfg in [
         ('T154-R97 Sec 14: NE/4', None),
         ('T154N-R97W Sec 14: Lots 1, 1, N/2NE/4, Sec 15: W/2', None),
